@@ -11,6 +11,9 @@ fn main() {
     if args.is_empty() {
         usage();
     }
+    if args[0] == "miri" {
+        std::process::exit(anytls_verif::props::miri_main(args.get(1).map(|s| s.as_str()).unwrap_or("")));
+    }
     if args[0] == "child" {
         std::process::exit(anytls_verif::props::child_main(&args[1..]));
     }
